@@ -46,7 +46,7 @@ Theorem C03_replay_armed : forall o, has_pending_state o = true ->
   map le_pid (ob_rel (arm_replay o)) = map le_pid (ob_rel o).
 Proof. exact arm_replay_states. Qed.
 
-From Minimq Require Import Machine Run WireInv Wire Healthy Owed Replay.
+From Minimq Require Import Machine Run WireInv Wire PingQuiet Healthy Owed Replay.
 
 (* ---- the replay on the wire: after a resumed connect every pending PUBREL is written once, in the order of the
    release list (= PUBREC order), after the owed acknowledgements and before the retained publishes — on any transport,
